@@ -284,7 +284,7 @@ func runC11(p *Program, r *Result) {
 		}
 		if l == nil {
 			ok, detail = false, "no full-range loop over an argument"
-		} else if len(l.earlyExits()) != 0 {
+		} else if len(p.loopEarlyExits(l)) != 0 {
 			ok, detail = false, "the comparison loop can be left early"
 		}
 		nTrue := 0
